@@ -79,7 +79,25 @@ func c15Alphas() []c15Alpha {
 				}
 				return out
 			}},
+		// arrays as elements: equal when element-wise equal, so [1] and ["1"] and [true] and ["true"] are four values
+		{"nested", []ref.V{ref.List{ref.Int(1)}, ref.List{"1"}, ref.List{true}, ref.List{"true"}},
+			[]any{[]any{1}, []any{"1"}, []any{true}, []any{"true"}}, false, func(xs []any) any {
+				out := make([][]any, len(xs))
+				for i, x := range xs {
+					out[i] = x.([]any)
+				}
+				return out
+			}},
 	}
+}
+
+func c15HasList(in ref.List) bool {
+	for _, x := range in {
+		if _, ok := x.(ref.List); ok {
+			return true
+		}
+	}
+	return false
 }
 
 // c15Print prints one element the way an object prints it.
@@ -287,8 +305,9 @@ func c15Filters() []c15Filter {
 			return in[len(in)-1], true
 		}},
 		{name: "size", scalar: true, apply: func(in ref.List, a c15Alpha) (ref.V, bool) { return ref.Int(int64(len(in))), true }},
-		{name: "join", scalar: true, apply: func(in ref.List, a c15Alpha) (ref.V, bool) { return c15Join(in, " "), true }},
-		{name: `join: ","`, scalar: true, apply: func(in ref.List, a c15Alpha) (ref.V, bool) { return c15Join(in, ","), true }},
+		// (how join spells an element that is itself an array is not stated: not judged on the nested alphabet)
+		{name: "join", scalar: true, apply: func(in ref.List, a c15Alpha) (ref.V, bool) { return c15Join(in, " "), !c15HasList(in) }},
+		{name: `join: ","`, scalar: true, apply: func(in ref.List, a c15Alpha) (ref.V, bool) { return c15Join(in, ","), !c15HasList(in) }},
 	}
 }
 
